@@ -171,6 +171,21 @@ theorem cl_ty : ∀ (t : Ty), CL t
     · split at h
       · contradiction
       · cases h; omega
+  | .custom code fixed => by
+    intro b o v n h
+    simp only [dec, Res.bind_eq_ok] at h
+    obtain ⟨cw, hc, h⟩ := h
+    obtain ⟨hcw, _⟩ := readCode_ok hc
+    split at h
+    · contradiction
+    · rename_i x rest hd
+      have hl : (b.drop cw).length = rest.length + 1 := by rw [hd]; rfl
+      simp only [List.length_drop] at hl
+      split at h
+      · contradiction
+      · split at h
+        · cases h; omega
+        · contradiction
   | .slice lp r e => by
     intro b o v n h
     simp only [dec, Res.bind_eq_ok, Res.pure_eq] at h
